@@ -36,7 +36,6 @@ func c03Table() []GuardReq {
 	add(req("v1-sig-not-redundant:used", VT, entry+".used["+sig+".PublicKeyIndex]", opT, "", "one key cannot sign twice"))
 	add(req("v1-sig-verifies", VT, "call (types.PublicKey).VerifyHash("+entry+".keys["+sig+".PublicKeyIndex].Key, phi(call (consensus.State).PartialSigHash(%ST%, %T1%, "+sig+".CoveredFields)|call (consensus.State).WholeSigHash(%ST%, %T1%, "+sig+".ParentID, "+sig+".PublicKeyIndex, "+sig+".Timelock, "+sig+".CoveredFields.Signatures)), "+sig+".Signature)", opF, "", "each ed25519 signature must verify against the key it points to and the sighash of the content it covers", entry+".keys["+sig+".PublicKeyIndex].Algorithm == global types.SpecifierEd25519"))
 	add(req("v1-sig-entropy-rejected", VT, entry+".keys["+sig+".PublicKeyIndex].Algorithm", opEQ, "global types.SpecifierEntropy", "entropy keys can never sign", "… != global types.SpecifierEd25519"))
-	add(req("v1-sig-all-supplied", VT, "make[*].need", opGT, "const:0", "dropping a required signature makes the transaction invalid"))
 	// ---- v1 Foundation update ----
 	fctx := []string{"%CH% >= %NET%.HardforkFoundation.Height", "call bytes.HasPrefix(%T1%.ArbitraryData[*], global types.SpecifierFoundation) is true"}
 	add(req("v1-foundation:decodes", VT, "call (types.Decoder).Err(…)", opNE, "nil", "a malformed update is rejected", fctx...))
@@ -80,7 +79,8 @@ func runC03(c *Ctx) {
 	tab := c03Table()
 	runGuardTable(c, "auth-guard", ge, tab)
 	c03FoundationSigned(c, ge)
-	c.Min("auth-guard", len(tab)+4)
+	c03AllSupplied(c, ge)
+	c.Min("auth-guard", len(tab)+5)
 	c03SigMap(c, ge)
 	progs := ExtractWirePrograms(c.P)
 	c03SigHashCoverage(c, progs)
@@ -301,4 +301,44 @@ func c03FoundationSigned(c *Ctx, ge *GuardEngine) {
 			c.Check(bad == "", rule, n.id, where, ifElse(bad == "", "every way of setting the flag requires it", "the flag can be set when only ["+bad+"] holds — "+n.clause))
 		}
 	}
+}
+
+// TryReq decides a requirement without recording it.
+func (ge *GuardEngine) TryReq(c *Ctx, r GuardReq, guards []Guard) (bool, Obligation) {
+	tmp := &Ctx{P: c.P, Prop: c.Prop, Depth: c.Depth, mins: map[string]int{}, funcs: map[string]bool{}, extra: map[string]any{}}
+	ge.CheckReq(tmp, "tmp", r, guards)
+	if len(tmp.obs) == 0 {
+		return false, Obligation{}
+	}
+	return tmp.obs[0].Status == "discharged", tmp.obs[0]
+}
+
+// c03AllSupplied: at the end of signature validation no parent may still need signatures. Either every entry
+// of the signature map is examined (range over the map), or the entry of every parent kind that has one is
+// looked up — the kinds being exactly those for which an entry is made (rule sigmap-entry).
+func c03AllSupplied(c *Ctx, ge *GuardEngine) {
+	const clause = "dropping a required signature makes the transaction invalid"
+	gs, ok := ge.EntryGuards(VT)
+	if !ok {
+		c.Undecided("auth-guard", "v1-sig-all-supplied", VT, "entry does not resolve")
+		return
+	}
+	whole := req("v1-sig-all-supplied", VT, "make[*].need", opGT, "const:0", clause)
+	if ok, ob := ge.TryReq(c, whole, gs); ok {
+		c.OK("auth-guard", "v1-sig-all-supplied", ob.Where, ob.Detail)
+		return
+	}
+	var missing []string
+	where, n := "", 0
+	for _, f := range []string{"SiacoinInputs", "SiafundInputs", "FileContractRevisions"} {
+		r := req("v1-sig-all-supplied:"+f, VT, "make[%T1%."+f+"[*].ParentID].need", opGT, "const:0", clause)
+		if ok, ob := ge.TryReq(c, r, gs); ok {
+			n++
+			where = ob.Where
+		} else {
+			missing = append(missing, f+" ("+short(ob.Detail)+")")
+		}
+	}
+	okAll := n == 3
+	c.Check(okAll, "auth-guard", "v1-sig-all-supplied", ifElse(where != "", where, VT), ifElse(okAll, "the entry of every parent kind that has one (siacoin inputs, siafund inputs, contract revisions) must have no signatures outstanding  ["+clause+"]", "neither the whole signature map nor the entry of every parent kind is checked for outstanding signatures; not covered: "+strings.Join(missing, "; ")+" — "+clause))
 }
